@@ -167,7 +167,13 @@ class CtxRecorder:
         alg = sys.modules[self.C.__name__ + '.algorithms']
         for which, fn in (('fast_generate_from', alg.fast_generate_from), ('fcbo_dual', alg.fcbo_dual),
                           ('get_concepts', alg.get_concepts), ('iterconcepts', alg.iterconcepts)):
-            res = [[self.O(x.members()), self.P(i.members())] for x, i in itertools.islice(fn(self.ctx), 300000)]
+            res, budget = [], 1500000
+            for x, i in itertools.islice(fn(self.ctx), 60000):     # cut runaway generators short
+                pair = [self.O(x.members()), self.P(i.members())]
+                res.append(pair)
+                budget -= len(pair[0]) + len(pair[1])
+                if budget < 0:
+                    break
             self.ev('gen', which=which, res=res)
 
     # ------------------------------------------------------------------ C05
@@ -659,6 +665,13 @@ def drive(rec, table, b, families, rng, exhaustive_queries, nsub=10, nmulti=12, 
         N = 0
     if 'C07' in families:
         pairs = pick_pairs(N, rng, 150)
+        if table.tag.startswith('marathon'):
+            # tens of thousands of distinct argument sets on ONE lattice object, then the first ones again
+            first = [(rng.randrange(N), rng.randrange(N)) for _ in range(300)]
+            many = first + [(rng.randrange(N), rng.randrange(N)) for _ in range(90000)] + first
+            for i, j in many:
+                T(rec.joinmeet, 'join', 'nary', [i, j])
+                T(rec.joinmeet, 'meet', 'op', [i, j])
         for i, j in pairs:
             for name in ('join', 'meet'):
                 T(rec.joinmeet, name, 'nary', [i, j])
